@@ -6,7 +6,7 @@ from .engine import Check, Job, log
 ALL_BE = [0, 1, 2, 3, 4, 5]
 
 
-def oracle_units(chk, progs, backends, tag, proj=emit.KINDS_ALL, steps_fn=None, bfs_depth=6, max_confs=60,
+def oracle_units(chk, progs, backends, tag, throws=False, proj=emit.KINDS_ALL, steps_fn=None, bfs_depth=6, max_confs=60,
                  check_result=True, check_post=True, check_flags=False, probe=None, check_introspect=False, check_queue=False, copy_modes=None, ser_states=None, opts=None, timeout=45, unwind=6, conf_filter=None, strats=None,
                  bfs_steps_fn=None, extra_leaf=None, extra_pre=None, cbmc_extra=()):
     for pname in progs:
@@ -25,14 +25,14 @@ def oracle_units(chk, progs, backends, tag, proj=emit.KINDS_ALL, steps_fn=None, 
                 prog.name += '_nosmint'
             steps = steps_fn(prog) if steps_fn else [('ev', e) for e in prog.events]
             bsteps = bfs_steps_fn(prog) if bfs_steps_fn else [('start',)] + [('ev', e) for e in prog.events]
-            confs, edges = model.bfs(prog, bsteps, max_depth=bfs_depth, max_confs=max_confs)
+            confs, edges = model.bfs(prog, bsteps, max_depth=bfs_depth, max_confs=max_confs, throws=throws)
             confs = [c for c in confs if (conf_filter(c[0]) if conf_filter else c[0].started)]
             cpp = emit.emit_cpp(prog, opts)
-            h, index = emit.emit_harness(prog, confs, steps, tag, proj=proj, check_result=check_result, check_post=check_post, check_flags=check_flags, probe=probe, check_introspect=check_introspect, check_queue=check_queue, copy_modes=copy_modes, ser_states=ser_states,
+            h, index = emit.emit_harness(prog, confs, steps, tag, throws=throws, proj=proj, check_result=check_result, check_post=check_post, check_flags=check_flags, probe=probe, check_introspect=check_introspect, check_queue=check_queue, copy_modes=copy_modes, ser_states=ser_states,
                                          extra_leaf=extra_leaf, extra_pre=extra_pre)
             chk.model_edges += sum(ix['paths'] for ix in index)
             for be in bes:
-                u = runner.Unit('%s_%s' % (tag, prog.name), be, cpp, h, index)
+                u = runner.Unit('%s_%s' % (tag, prog.name), be, cpp, h, index, exc=throws)
                 u.nevents = len(prog.events)
                 u.spec = {'prog': prog.name, 'tag': tag}
                 chk.add_unit(u)
@@ -178,7 +178,7 @@ def C11(tier, seed):
 def C17(tier, seed):
     chk = Check('C17', tier, seed)
     be = [0, 2, 3] + ([4] if tier == 'thorough' else [])
-    oracle_units(chk, ['FL', 'T'], be, 'C17', proj=('A',), check_result=False, check_flags=True, bfs_depth=6)
+    oracle_units(chk, ['FL', 'T', 'FL3'], be, 'C17', proj=('A',), check_result=False, check_flags=True, bfs_depth=6)
     return chk
 
 
@@ -253,7 +253,7 @@ def C05(tier, seed):
     chk = Check('C05', tier, seed)
     be = [0, 2, 3] + ([4] if tier == 'thorough' else [])
     flt = lambda c: c.started and len(c.deferred) + len(c.queue) <= 2
-    oracle_units(chk, ['D', 'Da'], be, 'C05', proj=STD, check_queue=True, opts={'queue_api': True, 'has_deferred': True},
+    oracle_units(chk, ['D', 'Da', 'Dr'], be, 'C05', proj=STD, check_queue=True, opts={'queue_api': True, 'has_deferred': True},
                  conf_filter=flt, bfs_depth=5, max_confs=40, timeout=90, unwind=12, strats=['n', 'nkG', 'pk'])
     chk.bounds.update({'deferred_events_pending_in_pre_state': '0..2, distinct concrete payloads (their position in the prefix script)'})
     chk.assumptions.append('C05: guards of Defer-action rows are logged in an uncompared class and held true in the step while an event they deferred is pending (the deferring configuration persists); back releases action-deferred events after the next handled event, backmp11 after the next processed event - both satisfy the statement under this assumption')
@@ -324,6 +324,16 @@ def C16(tier, seed):
     return chk
 
 
+def C12(tier, seed):
+    chk = Check('C12', tier, seed)
+    be = [0, 3] + ([2, 4] if tier == 'thorough' else [])
+    progs = ['F1', 'H2'] + (['F1_after_exit', 'F1_before_transition', 'R2', 'A'] if tier == 'thorough' else ['F1_before_transition'])
+    oracle_units(chk, progs, be, 'C12', throws=True, proj=('G', 'A', 'E', 'X', 'N', 'C'), opts={'defines': ['VF_THROW_ON 1']},
+                 bfs_depth=5, max_confs=(30 if tier == 'thorough' else 10), timeout=90, strats=['nk', 'nkG', 'pk'])
+    chk.assumptions.append('C12: translation units are lowered with exceptions enabled; throw / unwind / landing pads are modelled by ll2c (pending-exception flag checked after every call that may unwind; catch clauses matched through the typeinfo base-class chain); only exceptions derived from std::exception thrown by behaviours are exercised, one fault per step, faulting steps are part of the enumerated prefixes (repeated faults)')
+    return chk
+
+
 BP_TYPES = {0: 'Triv<1> (5 bytes)', 1: 'Triv<44>', 2: 'Triv<52> (56 bytes: fills the inline buffer)', 3: 'Triv<53> (60 bytes: heap)',
             4: 'TrivA<8,16> (alignment 16: heap)', 5: 'TrivA<40,64> (alignment 64: heap)', 6: 'Triv<196> (200 bytes: heap)',
             7: 'NonTriv inline (user copy/move/dtor, self pointer)', 8: 'NonTriv 100 bytes (heap)', 9: 'ThrowMove (move not noexcept: heap)'}
@@ -356,4 +366,4 @@ def C20(tier, seed):
     return chk
 
 
-PROPS = {f.__name__: f for f in (C01, C02, C03, C04, C05, C15, C16, C18, C19, C06, C07, C08, C09, C10, C11, C13, C17, C20)}
+PROPS = {f.__name__: f for f in (C01, C02, C03, C04, C05, C12, C15, C16, C18, C19, C06, C07, C08, C09, C10, C11, C13, C17, C20)}
